@@ -31,6 +31,12 @@ for _k in ('fsdt_donnell_bc1', 'fsdt_donnell_bc2', 'fsdt_donnell_bc3', 'fsdt_don
     NL[_k] = ('compmech/conecyl/fsdt/%s_nonlinear.pyx' % _k, 8)
 
 
+# isotropic short-cut models: their own non-linear module supplies calc_k0L / calc_kLL from (E11, nu, h); calc_kG and the internal
+# force come from the general model of the same boundary conditions, fed the matrix F that ConeCyl._rebuild derives from (E11, nu, h)
+ISO_NL = {'iso_clpt_donnell_bc2': 'compmech/conecyl/clpt/iso_clpt_donnell_bc2_nonlinear.pyx',
+          'iso_clpt_donnell_bc3': 'compmech/conecyl/clpt/iso_clpt_donnell_bc3_nonlinear.pyx'}
+
+
 def one_point_integrator(ctx):
     x, t, alpha = ctx.V('xq'), ctx.V('tq'), ctx.V('alphaq')
 
@@ -69,7 +75,7 @@ def load_nl(ctx, model, cfg):
     """the non-linear module of `model` de-Cythonised, with the one-point integrator and the helper kernels cimported from the
     commons module of the same boundary-condition family"""
     import re
-    rel, nF = NL[model]
+    rel, nF = NL[model] if model in NL else (ISO_NL[model], 6)
     env = dict(ctx.kernels.extra_env)
     w0x, w0t = (imperfection(ctx, 'w0x'), imperfection(ctx, 'w0t')) if cfg.get('imperfect') else (zero_imperfection, zero_imperfection)
     if cfg.get('mgi'):
@@ -98,7 +104,8 @@ def build(cfg, values=None):
     m1, m2, n2 = cfg['mn']
     ctx = ConeCtx(values=values, seed=cfg.get('seed', 0))
     V = ctx.V
-    rel, nF = NL[model]
+    iso = model in ISO_NL
+    rel, nF = NL[model] if not iso else (ISO_NL[model], 6)
     M = load_nl(ctx, model, cfg)
     K = M.ns
     size = 3 + 3 * m1 + (6 if nF == 6 else 10) * m2 * n2 if nF == 6 else None
@@ -133,9 +140,18 @@ def build(cfg, values=None):
         import compmech.conecyl.modelDB as mdb
         from ..eigstubs import sym_matrix
         ns = type('NonLinearModule', (), {})()
-        for nm in ('calc_k0L', 'calc_kLL', 'calc_kG', 'calc_fint_0L_L0_LL'):
-            setattr(ns, nm, K[nm])
         newdb = {name: dict(e) for name, e in mdb.db.items()}
+        if iso:
+            for nm in ('calc_k0L', 'calc_kLL'):
+                setattr(ns, nm, K[nm])
+            gen = type('NonLinearModule', (), {})()
+            Kg = load_nl(ctx, model[4:], cfg).ns
+            for nm in ('calc_k0L', 'calc_kLL', 'calc_kG', 'calc_fint_0L_L0_LL'):
+                setattr(gen, nm, Kg[nm])
+            newdb[model[4:]]['non-linear'] = gen
+        else:
+            for nm in ('calc_k0L', 'calc_kLL', 'calc_kG', 'calc_fint_0L_L0_LL'):
+                setattr(ns, nm, K[nm])
         newdb[model]['non-linear'] = ns
         with ctx.shadow(extra_stubs={'compmech.conecyl.modelDB.db': newdb, 'compmech.conecyl.conecyl.get_model': lambda name: newdb[name]}):
             cc = ctx.new_cone(model, m1, m2, n2)
@@ -144,7 +160,12 @@ def build(cfg, values=None):
             cc.tLAdeg = V('tLAdeg')
             cc.pdC, cc.pdT, cc.pdLA = cfg['pd']
             cc.uTM, cc.thetaTdeg, cc.betadeg = V('uTM'), V('thetaTdeg'), V('betadeg')
-            cc.F = F
+            if iso:
+                # isotropic input: no laminate; the constitutive matrix is what the real _rebuild derives from (E11, nu, h)
+                cc.laminaprop, cc.stack, cc.plyt = None, [0], None
+                cc.E11, cc.nu, cc.h = V('E11'), V('nu'), V('h')
+            else:
+                cc.F = F
             cc.ni_num_cores, cc.ni_method, cc.nx, cc.nt = 1, 'trapz2d', 1, 1
             cc.c0, cc.m0, cc.n0 = c0, 0, 0
             if cfg.get('mgi'):
@@ -309,6 +330,10 @@ def configs(tier, seed):
                         'm': 2, 'n': 1, 'timeout_ms': 600000})
         if not quick:
             out.append({'variant': 'jacobian', 'model': model, 'mn': (3, 2, 2), 'cone': True, 'group': 'tangent=jacobian:%s:cone-322' % model, 'm': 3, 'n': 1, 'timeout_ms': 1200000})
+    for model in sorted(ISO_NL):
+        for cone in ((True,) if quick else (True, False)):
+            out.append({'variant': 'api', 'model': model, 'mn': (2, 2, 1), 'cone': cone, 'pd': (True, True, True), 'group': 'ConeCyl.kTuu=d calc_fint/dcu:%s:%s' % (model, 'cone' if cone else 'cylinder'),
+                        'm': 2, 'n': 1, 'timeout_ms': 600000})
     out[0]['canary'] = True
     return out
 
@@ -322,13 +347,16 @@ def main():
         'for both integration rules and every grid.'))
     for m, (rel, _) in NL.items():
         run.encoded(rel, 'calc_k0L, calc_kG, calc_kLL, calc_fint_0L_L0_LL, cfk0L, cfkG, cfkLL, cffint')
+    for m, rel in ISO_NL.items():
+        run.encoded(rel, 'calc_k0L, calc_kLL, cfk0L, cfkLL')
+    run.encoded('compmech/conecyl/conecyl.py', 'ConeCyl._rebuild (isotropic constitutive matrix), _calc_NL_matrices, calc_fint, calc_full_c')
     run.encoded('compmech/integrate/integratev.pyx', 'integratev (chunking)')
     cf = configs(run.tier, run.seed)
     run.bounds = {'models': sorted({c['model'] for c in cf}), 'series_orders_(m1,m2,n2)': sorted({c['mn'] for c in cf}), 'integration points': 'one symbolic point/weight (integrand level)',
                   'imperfection': 'none (c0 = 0)', 'configurations': len(cf)}
     run.assume('trigonometric values at the symbolic point are atoms per argument class with S^2 + C^2 = 1', 'r2, L, cos(alpha) non-zero', 'perfect shell (no initial imperfection)')
     run.outside = ['resolution of the trapezoid / Simpson grids', 'OpenMP scheduling', 'initial imperfections', 'reduction to the linear stiffness for vanishing amplitudes involves the analytic k0 (C16)',
-                   'iso_ non-linear modules and fsdt bcn']
+                   'iso_ non-linear modules outside the ConeCyl route (their calc_k0L / calc_kLL are decided through ConeCyl._calc_NL_matrices only)', 'fsdt bcn']
     res = pmap(kprop.job, [(__name__, c) for c in cf])
     kprop.handle(run, res, build, 'entries violate the tangent/Jacobian identity', signature=signature)
     # replay on the compiled kernels: the entries that fail symbolically for (m1, m2, n2) = (2, 2, 1) on the cone
